@@ -46,9 +46,9 @@ theorem test_mode_kill_is_noop_on_server (P : Params) (hP : P.Good) (alive : Boo
 
 /-- Witness: if test mode recorded the runner, Kill would kill the server. -/
 theorem test_mode_records_runner_witness :
-    ∃ s, runFrom ⟨true, true, true, true, false, true⟩ (init (.reattach true) true) [.start true, .killA true true, .killB] = some s ∧
+    ∃ s, runFrom ⟨true, true, true, true, false, true, true⟩ (init (.reattach true) true) [.start true, .killA true true, .killB] = some s ∧
       s.procs 0 = some false := by
-  refine ⟨(runFrom ⟨true, true, true, true, false, true⟩ (init (.reattach true) true) [.start true, .killA true true, .killB]).get (by decide), by simp, by decide⟩
+  refine ⟨(runFrom ⟨true, true, true, true, false, true, true⟩ (init (.reattach true) true) [.start true, .killA true true, .killB]).get (by decide), by simp, by decide⟩
 
 /-! ### Reattaching several times: clients built from a reattached client's `ReattachConfig()`
 
@@ -159,27 +159,27 @@ theorem chain_from_launcher_kills_instance (P : Params) (hP : P.Good) (a b : Boo
 second-generation client would kill a test-mode server — while a first-generation client (the only
 thing a single reattach exercises) behaves correctly with the same facts. -/
 theorem reattach_config_drops_test_witness :
-    (∃ s, chain ⟨true, true, true, true, true, false⟩ (init (.reattach true) true) [.start true]
+    (∃ s, chain ⟨true, true, true, true, true, false, true⟩ (init (.reattach true) true) [.start true]
         [[.start true, .killA true true, .killB]] = some s ∧ s.launch = .reattach false ∧ s.procs 0 = some false) ∧
-    (∃ s, chain ⟨true, true, true, true, true, false⟩ (init (.reattach true) true)
+    (∃ s, chain ⟨true, true, true, true, true, false, true⟩ (init (.reattach true) true)
         [.start true, .killA true true] [] = some s ∧ s.procs 0 = some true) := by
-  refine ⟨⟨(chain ⟨true, true, true, true, true, false⟩ (init (.reattach true) true) [.start true]
+  refine ⟨⟨(chain ⟨true, true, true, true, true, false, true⟩ (init (.reattach true) true) [.start true]
       [[.start true, .killA true true, .killB]]).get (by decide), by simp, by decide, by decide⟩,
-    ⟨(chain ⟨true, true, true, true, true, false⟩ (init (.reattach true) true)
+    ⟨(chain ⟨true, true, true, true, true, false, true⟩ (init (.reattach true) true)
       [.start true, .killA true true] []).get (by decide), by simp, by decide⟩⟩
 
 /-- non-vacuity: three generations in test mode, Kill on each; the server dies only by itself -/
-example : ∃ s, chain ⟨true, true, true, true, true, true⟩ (init (.reattach true) true) [.start true, .killA true true]
+example : ∃ s, chain ⟨true, true, true, true, true, true, true⟩ (init (.reattach true) true) [.start true, .killA true true]
     [[.client true true, .killA true true], [.start true, .killA true true, .procDies 0]] = some s ∧
     s.launch = .reattach true ∧ s.procs 0 = some false ∧ s.kills = 0 := by
-  refine ⟨(chain ⟨true, true, true, true, true, true⟩ (init (.reattach true) true) [.start true, .killA true true]
+  refine ⟨(chain ⟨true, true, true, true, true, true, true⟩ (init (.reattach true) true) [.start true, .killA true true]
     [[.client true true, .killA true true], [.start true, .killA true true, .procDies 0]]).get (by decide),
     by simp, by decide, by decide, by decide⟩
 
 /-- non-vacuity: test mode, the server dies only by itself -/
-example : ∃ s, runFrom ⟨true, true, true, true, true, true⟩ (init (.reattach true) true)
+example : ∃ s, runFrom ⟨true, true, true, true, true, true, true⟩ (init (.reattach true) true)
     [.start true, .client true true, .killA true true, .procDies 0] = some s ∧ s.procs 0 = some false ∧ s.kills = 0 := by
-  refine ⟨(runFrom ⟨true, true, true, true, true, true⟩ (init (.reattach true) true)
+  refine ⟨(runFrom ⟨true, true, true, true, true, true, true⟩ (init (.reattach true) true)
     [.start true, .client true true, .killA true true, .procDies 0]).get (by decide), by simp, by decide, by decide⟩
 
 /-! ### the plugin outlives host connections -/
